@@ -121,10 +121,15 @@ Fixpoint ops_eqb (a b : list op) : bool :=
   | _, _ => false
   end.
 
-(* data[a], data[b] = data[b], data[a] written index-wise *)
+(* data[a], data[b] = data[b], data[a] written index-wise (one pass) *)
+Fixpoint subst2 (k a b : nat) (x y : Z) (l : list Z) : list Z :=
+  match l with
+  | [] => []
+  | v :: r => (if Nat.eqb k a then y else if Nat.eqb k b then x else v) :: subst2 (S k) a b x y r
+  end.
+
 Definition swap_pure (a b : nat) (l : list Z) : list Z :=
-  map (fun k => if Nat.eqb k a then nth b l 0%Z else if Nat.eqb k b then nth a l 0%Z else nth k l 0%Z)
-      (seq 0 (List.length l)).
+  let x := nth a l 0%Z in let y := nth b l 0%Z in subst2 0 a b x y l.
 
 Fixpoint apply_pure (sw : list (Z * Z)) (l : list Z) : list Z :=
   match sw with
